@@ -367,10 +367,13 @@ func (f *FieldCopyFromGenerator) genObjectListOrMap() *j.Statement {
 
 // genCustom generates statement representing custom type
 func (f *FieldCopyFromGenerator) genCustom() *j.Statement {
-	return j.Block(
+	return j.BlockFunc(func(g *j.Group) {
 		// a, ok := ft.Attrs["key"]
-		j.List(j.Id("a"), j.Id("ok")).Op(":=").Id("tf.Attrs").Index(j.Lit(f.NameSnake)),
-		j.If(j.Id("!ok")).BlockFunc(f.errAttrMissingDiag),
-		j.Id("CopyFrom"+f.Suffix).Params(j.Id("diags"), j.Id("a"), j.Id("&obj."+f.Name)),
-	)
+		g.List(j.Id("a"), j.Id("ok")).Op(":=").Id("tf.Attrs").Index(j.Lit(f.NameSnake))
+		g.If(j.Id("!ok")).BlockFunc(f.errAttrMissingDiag)
+		// The user function needs a place to write to: a field promoted from a nullable embedded message
+		// lives in that message
+		f.allocateEmbedded(g)
+		g.Id("CopyFrom"+f.Suffix).Params(j.Id("diags"), j.Id("a"), j.Id("&obj."+f.Name))
+	})
 }
